@@ -228,7 +228,7 @@ static void dg_file(dg_t *d, const char *path)
 
 #define NF 2			/* calibration frequencies (default) */
 #define MAXF 4			/* most frequencies any script uses */
-#define MAXH 12			/* parameter handles a script keeps */
+#define MAXH 20			/* parameter handles a script keeps */
 #define MAXFILES 8
 #define MAXSTEPS 400
 
@@ -2444,6 +2444,120 @@ bail:
     cleanup();
 }
 
+/* (37) every documented argument form of the make_*_parameter functions:
+ * vector parameters with 1, 2 and 5 points; unknown over a predefined
+ * constant, a scalar, a vector and (accepted by the code, not named by the
+ * manual: either outcome admitted) another unknown; correlated with a single
+ * sigma (NULL grid), with an explicit sigma grid, with a NULL grid whose
+ * count equals the base vector's (directly, through an unknown parent and
+ * through a correlated parent; 5 points and 2 points).  The digest taken
+ * after every step evaluates EVERY live handle, so a parent damaged by a
+ * failed child creation is seen at once; explicit probes of the vector
+ * parents follow the creations; deletes parents-first and children-first. */
+static void script_params2(void)
+{
+    static const double f1[1] = { 1.5e9 };
+    static const double f2[2] = { 1.0e9, 2.0e9 };
+    static const double f5[5] = { 1.0e9, 1.25e9, 1.5e9, 1.75e9, 2.0e9 };
+    static const double fs3[3] = { 0.9e9, 1.6e9, 2.1e9 };
+    static const double complex g1[1] = { 0.3 - 0.2 * I };
+    static const double complex g2[2] = { 0.5, 0.5 * I };
+    static const double complex g5[5] = { 0.9, 0.8 + 0.1 * I, 0.7 + 0.2 * I,
+	0.6 + 0.3 * I, 0.5 + 0.4 * I };
+    static const double s1 = 0.03;
+    static const double sv2[2] = { 0.01, 0.02 };
+    static const double sv3[3] = { 0.01, 0.03, 0.02 };
+    static const double sv5[5] = { 0.01, 0.02, 0.03, 0.02, 0.01 };
+    enum { S, V1, V2, V5, UP, US, UV, UU, C_SINGLE, C_GRID, C_NULL5, C_NULL5_U,
+	C_NULL5_C, C_NULL2, C_GRID_US, V5B };
+    vnacal_t *vcp;
+
+    STEP_PTR("create", W.vc[0], vnacal_create(vt_errfn, NULL));
+    vcp = W.vc[0];
+    W.hvc = 0;
+    STEP_IDX("make_scalar", W.h[S], vnacal_make_scalar_parameter(vcp,
+		-0.4 + 0.3 * I));
+    STEP_IDX("make_vector_1point", W.h[V1], vnacal_make_vector_parameter(vcp,
+		f1, 1, g1));
+    STEP_IDX("make_vector_2points", W.h[V2], vnacal_make_vector_parameter(vcp,
+		f2, 2, g2));
+    STEP_IDX("make_vector_5points", W.h[V5], vnacal_make_vector_parameter(vcp,
+		f5, 5, g5));
+    STEP_IDX("make_unknown_predefined", W.h[UP],
+	    vnacal_make_unknown_parameter(vcp, VNACAL_SHORT));
+    STEP_IDX("make_unknown_scalar", W.h[US], vnacal_make_unknown_parameter(vcp,
+		W.h[S]));
+    STEP_IDX("make_unknown_vector", W.h[UV], vnacal_make_unknown_parameter(vcp,
+		W.h[V5]));
+    g_allow_fail = 1;
+    STEP_IDX("make_unknown_unknown", W.h[UU], vnacal_make_unknown_parameter(vcp,
+		W.h[UV]));
+    STEP_IDX("make_correlated_single_sigma", W.h[C_SINGLE],
+	    vnacal_make_correlated_parameter(vcp, W.h[S], NULL, 1, &s1));
+    STEP_IDX("make_correlated_explicit_grid", W.h[C_GRID],
+	    vnacal_make_correlated_parameter(vcp, W.h[V5], fs3, 3, sv3));
+    /* sigma_frequency_vector == NULL: the grid of the vector at the end of
+     * the chain of "other" parameters */
+    STEP_IDX("make_correlated_null_grid", W.h[C_NULL5],
+	    vnacal_make_correlated_parameter(vcp, W.h[V5], NULL, 5, sv5));
+    W.npval = 1;
+    STEP_CPLX("get_vector_5points", W.pval[0], vnacal_get_parameter_value(vcp,
+		W.h[V5], 1.6e9));
+    STEP_IDX("make_correlated_null_grid_over_unknown", W.h[C_NULL5_U],
+	    vnacal_make_correlated_parameter(vcp, W.h[UV], NULL, 5, sv5));
+    STEP_IDX("make_correlated_null_grid_over_correlated", W.h[C_NULL5_C],
+	    vnacal_make_correlated_parameter(vcp, W.h[C_NULL5_U], NULL, 5,
+		sv5));
+    STEP_IDX("make_correlated_null_grid_2points", W.h[C_NULL2],
+	    vnacal_make_correlated_parameter(vcp, W.h[V2], NULL, 2, sv2));
+    STEP_IDX("make_correlated_explicit_grid_over_unknown_scalar",
+	    W.h[C_GRID_US], vnacal_make_correlated_parameter(vcp, W.h[US],
+		fs3, 3, sv3));
+    W.npval = 2;
+    STEP_CPLX("get_vector_5points_again", W.pval[1],
+	    vnacal_get_parameter_value(vcp, W.h[V5], 1.1e9));
+    W.npval = 3;
+    STEP_CPLX("get_vector_2points", W.pval[2], vnacal_get_parameter_value(vcp,
+		W.h[V2], 1.9e9));
+    W.npval = 4;
+    STEP_CPLX("get_vector_1point", W.pval[3], vnacal_get_parameter_value(vcp,
+		W.h[V1], 1.5e9));
+    /* parents first: the shared frequency vector must outlive its owner's
+     * handle as long as a child uses it */
+    STEP_RC("delete_vector_5points", vnacal_delete_parameter(vcp, W.h[V5]));
+    W.h[V5] = -1;
+    STEP_RC("delete_unknown_vector", vnacal_delete_parameter(vcp, W.h[UV]));
+    W.h[UV] = -1;
+    STEP_IDX("make_vector_5points_b", W.h[V5B],
+	    vnacal_make_vector_parameter(vcp, f5, 5, g5));
+    STEP_RC("delete_correlated_null_grid", vnacal_delete_parameter(vcp,
+		W.h[C_NULL5]));
+    W.h[C_NULL5] = -1;
+    /* children first */
+    STEP_RC("delete_correlated_over_correlated", vnacal_delete_parameter(vcp,
+		W.h[C_NULL5_C]));
+    W.h[C_NULL5_C] = -1;
+    STEP_RC("delete_correlated_over_unknown", vnacal_delete_parameter(vcp,
+		W.h[C_NULL5_U]));
+    W.h[C_NULL5_U] = -1;
+    STEP_RC("delete_correlated_2points", vnacal_delete_parameter(vcp,
+		W.h[C_NULL2]));
+    W.h[C_NULL2] = -1;
+    STEP_RC("delete_vector_2points", vnacal_delete_parameter(vcp, W.h[V2]));
+    W.h[V2] = -1;
+    STEP_RC("delete_scalar", vnacal_delete_parameter(vcp, W.h[S]));
+    W.h[S] = -1;
+    /* a NULL-grid child over the new vector, left for vnacal_free together
+     * with everything else that is still live */
+    STEP_IDX("make_correlated_null_grid_b", W.h[C_NULL5],
+	    vnacal_make_correlated_parameter(vcp, W.h[V5B], NULL, 5, sv5));
+    STEP_VOID("free", (vnacal_free(vcp), W.vc[0] = NULL));
+    for (int i = 0; i < MAXH; ++i)
+	W.h[i] = -1;
+bail:
+    cleanup();
+}
+
 /* ------------------------------------------------------------------- main */
 
 static const struct {
@@ -2475,6 +2589,7 @@ static const struct {
     { "ts", script_ts },
     { "resolve", script_resolve },
     { "resolve2", script_resolve2 },
+    { "params2", script_params2 },
     { "solt-t8-m", script_solt, 0 },
     { "solt-t8-ab", script_solt, 1 },
     { "solt-u8-m", script_solt, 2 },
